@@ -261,7 +261,8 @@ def falsy_zero(ctx):
         if c in ix.classes:
             typed |= {(c, "value"), (c, "_value")}
     cfg = Config(
-        attrs={"iterations", "_iterations", "alias_index", "_alias_index"},
+        # `stop`: 0 is a real bound and None an open one (`start or 0` and `if step` are equivalences, so they stay out)
+        attrs={"iterations", "_iterations", "alias_index", "_alias_index", "stop"},
         typed_attrs=typed,
         map_names={"arguments", "override_dict"},
         passthrough={"as_integer", "filter_float", "int", "float", "build", "visit", "build_count", "resolve_constant"},
@@ -552,6 +553,38 @@ def check_coercion(ctx, rep, rule: str, modules):
                 rep.ok(rule, cons, f"`{ast.unparse(c)}` runs only after isinstance({key}, <plain number>)", loc)
             else:
                 rep.violation(rule, cons, f"`{ast.unparse(c)}` coerces {origin} without an isinstance test for plain numbers: a let constant used there (Constant has __int__/__float__) is replaced by its file value, so `fill_in_let(override)` after this pass no longer reaches it", loc)
+    # the same freeze through `.value`: only let substitution may replace a constant by its value
+    CONSTS = {"jaqalpaq.core.constant.Constant", "jaqalpaq.core.parameter.AnnotatedValue"}
+    for f in res["funcs"]:
+        if f.module not in modules or isinstance(f.node, ast.Lambda):
+            continue
+        fl = None
+        for a in walk_no_nested(f.node):
+            if not (isinstance(a, ast.Attribute) and a.attr in ("value", "_value") and isinstance(a.ctx, ast.Load)):
+                continue
+            ts = T.expr_types.get(id(a.value)) or ()
+            narrowed = False
+            if fl is None:
+                fl = FuncFlow(ix, T, f)
+            for t in fl.control_tests(a):
+                for m in ast.walk(t):
+                    if isinstance(m, ast.Call) and isinstance(m.func, ast.Name) and m.func.id == "isinstance" and len(m.args) == 2 and ast.unparse(m.args[0]) == ast.unparse(a.value) and "Constant" in ast.unparse(m.args[1]):
+                        narrowed = True
+            if not (narrowed or (ts and all(t in CONSTS for t in ts))):
+                continue
+            par = fl.parent.get(id(a))
+            # a read that only feeds a comparison is a test, not a substitution
+            in_test = False
+            node = a
+            while node is not None and not isinstance(node, ast.stmt):
+                pn = fl.parent.get(id(node))
+                if isinstance(pn, ast.Compare) or (isinstance(pn, (ast.If, ast.While, ast.IfExp)) and node is pn.test):
+                    in_test = True
+                node = pn
+            if in_test:
+                continue
+            n += 1
+            rep.violation(rule, construct_of(f, f"constant-value-read:{ast.unparse(a)[:30]}"), f"`{ast.unparse(a)}` replaces a let constant by its declared value outside let substitution: the constant is frozen, so an override applied afterwards (fill_in_let after this pass) no longer reaches it and the passes stop commuting", f"{f.path}:{a.lineno}")
     rep.analysed["coercion_sites"] = n
 
 
@@ -750,14 +783,15 @@ def check_zero_trip(ctx, rep, rule, exclude=()):
                         for c in ast.walk(g.test):
                             if isinstance(c, ast.Compare) and len(c.ops) == 1:
                                 l, r = ast.unparse(c.left), ast.unparse(c.comparators[0])
-                                ok_l = l == count and ((r == "0" and isinstance(c.ops[0], (ast.LtE, ast.Eq))) or (r == "1" and isinstance(c.ops[0], ast.Lt)))
-                                ok_r = r == count and ((l == "0" and isinstance(c.ops[0], (ast.GtE, ast.Eq))) or (l == "1" and isinstance(c.ops[0], ast.Gt)))
+                                # range(n) is empty for every n <= 0: `== 0` and `not n` miss the negative counts the parser accepts
+                                ok_l = l == count and ((r == "0" and isinstance(c.ops[0], ast.LtE)) or (r == "1" and isinstance(c.ops[0], ast.Lt)))
+                                ok_r = r == count and ((l == "0" and isinstance(c.ops[0], ast.GtE)) or (l == "1" and isinstance(c.ops[0], ast.Gt)))
                                 if ok_l or ok_r:
                                     guard = g
                                 elif (l == count and r in ("0", "1", "2")) or (r == count and l in ("0", "1", "2")):
                                     wrong = g
                             if isinstance(c, ast.UnaryOp) and isinstance(c.op, ast.Not) and ast.unparse(c.operand) == count:
-                                guard = g
+                                wrong = g
                 if guard is None and wrong is not None:
                     rep.violation(rule, cons, f"`{ast.unparse(wrong.test)}` is not the zero-trip test (it also catches loops that do run, or misses count 0): a loop with a count of one is skipped, or a zero-count loop is waited for", loc)
                 elif guard is not None:
@@ -954,6 +988,21 @@ def check_cached_mutables(ctx, rep, rule: str, modules):
             tree = ast.parse(text)
         except SyntaxError:
             continue
+        # a process-wide cache keyed on IR objects: NamedQubit/Register equality is NAME based, so an entry computed
+        # for one circuit answers for the equally named object of the next circuit
+        for fn in ast.walk(tree):
+            if not isinstance(fn, (ast.FunctionDef, ast.AsyncFunctionDef)):
+                continue
+            decos = set()
+            for d in fn.decorator_list:
+                x = d.func if isinstance(d, ast.Call) else d
+                decos.add(x.id if isinstance(x, ast.Name) else x.attr if isinstance(x, ast.Attribute) else "")
+            if not (decos & (_CACHE_DECOS - {"cached_property"})):
+                continue
+            params = [a for a in fn.args.posonlyargs + fn.args.args + fn.args.kwonlyargs if a.arg not in ("self", "cls")]
+            scalar = all(a.annotation is not None and ast.unparse(a.annotation) in ("int", "float", "str", "bool", "bytes") for a in params)
+            if params and not scalar:
+                rep.violation(rule, f"{short(mod)}:{fn.name}:cache-keyed-on-objects", f"`{fn.name}` is memoised for the whole process with parameters that are not plain scalars: circuit objects compare by NAME (`a[0]` of one circuit equals `a[0]` of the next), so a value computed for one program is returned for another in the same session", f"{path}:{fn.lineno}")
         for fn, ret in _cached_mutable_hits(tree):
             rep.violation(rule, f"{short(mod)}:{fn.name}:cached-mutable", f"`{fn.name}` is memoised and `{ast.unparse(ret)}` returns mutable buffers: every subcircuit emulated with the same dimension writes into the vectors already handed out, so the state vector reported for an earlier subcircuit (or an earlier run) changes", f"{path}:{ret.lineno}")
     if n == 0:
@@ -1067,6 +1116,7 @@ def check_shadowed_register_names(ctx, rep, rule: str):
                     state.add(t.attr)
     cons = construct_of(vq, "shadowed-register-name")
     guard = None
+    wrong_recv = None
     for st in iter_stmts(vq.body):
         if isinstance(st, ast.If) and any(isinstance(x, ast.Return) for x in st.body):
             for c in ast.walk(st.test):
@@ -1074,7 +1124,22 @@ def check_shadowed_register_names(ctx, rep, rule: str):
                     left_name = isinstance(c.left, ast.Attribute) and c.left.attr in ("name", "_name")
                     right_state = isinstance(c.comparators[0], ast.Attribute) and c.comparators[0].attr in state
                     if left_name and right_state:
-                        guard = st
+                        # the name tested is that of the RESOLVED (fundamental) register: a name bound from resolve_qubit()
+                        recv = c.left.value
+                        resolved = set()
+                        for a_ in iter_stmts(vq.body):
+                            if isinstance(a_, ast.Assign) and isinstance(a_.value, ast.Call) and isinstance(a_.value.func, ast.Attribute) and a_.value.func.attr == "resolve_qubit":
+                                for t_ in a_.targets:
+                                    for e_ in (t_.elts if isinstance(t_, (ast.Tuple, ast.List)) else [t_]):
+                                        if isinstance(e_, ast.Name):
+                                            resolved.add(e_.id)
+                        if isinstance(recv, ast.Name) and recv.id in resolved:
+                            guard = st
+                        else:
+                            wrong_recv = (st, c)
+    if guard is None and wrong_recv is not None:
+        rep.violation(rule, cons, f"`{ast.unparse(wrong_recv[1])}` tests the name of the reference's DIRECT source, not of the fundamental register it resolves to: with `map s r[2:6]; map a s[1]` inside `macro F r {{..}}` the reference is rewritten to `r[3]`, which the generated text binds to the parameter r", f"{vq.path}:{wrong_recv[0].lineno}", witness="register r[6]\nmap s r[2:6]\nmap a s[1]\nmacro F r { Px a ; Px r }")
+        return
     if guard is not None:
         rep.ok(rule, cons, f"`{ast.unparse(guard.test)}` (set from the macro's parameters in visit_Macro) leaves the reference unchanged", vq.loc())
     else:
@@ -1138,6 +1203,12 @@ def check_memo_numeric_keys(ctx, rep, rule: str):
             rep.violation(rule, cons, "numeric arguments enter the memo key as raw values: `foo 1; foo 1.0` builds `foo 1` twice, `Rz q[0] -0.0` after `Rz q[0] 0.0` loses its sign, and generated text changes (`loop 2.0 {` where `loop 2 {` was written)", c.loc(), witness="register q[2]\nfoo 1\nfoo 1.0")
 
 
+def re_inf_pos(txt: str) -> bool:
+    """A positive infinity is mentioned besides the negative one."""
+    import re as _re
+    return bool(_re.search(r"(?<!-)inf", txt.replace("'-inf'", "").replace('"-inf"', "")))
+
+
 def check_number_finite(ctx, rep, rule: str):
     """float() of a long literal overflows to inf, which neither the generator can write nor the parser read."""
     from ..lexer import extract_lexer
@@ -1153,12 +1224,18 @@ def check_number_finite(ctx, rep, rule: str):
         n += 1
         cons = construct_of(r.func, "finite")
         guard = None
+        half = None
         for st in iter_stmts(r.func.body):
             if isinstance(st, ast.If) and any(isinstance(x, ast.Raise) for x in st.body):
                 txt = ast.unparse(st.test)
-                if "inf" in txt or "isfinite" in txt or "isinf" in txt:
+                both = "isfinite" in txt or "isinf" in txt or ("-inf" in txt and re_inf_pos(txt)) or "abs(" in txt
+                if both:
                     guard = st
-        if guard is not None:
+                elif "inf" in txt:
+                    half = st
+        if guard is None and half is not None:
+            rep.violation(rule, cons, f"`{ast.unparse(half.test)[:70]}` rejects only one of the two infinities: the sign is part of the token, so `-1.0e999` lexes to -inf and is accepted (and `int(-inf)` raises OverflowError once it is used as an index or count)", r.func.loc(), witness="register q[2]\nfoo q[0] -1.0e999")
+        elif guard is not None:
             rep.ok(rule, cons, f"`{ast.unparse(guard.test)[:60]}` raises", r.func.loc())
         else:
             rep.violation(rule, cons, "`let big 1.0e999` is accepted with the value inf; the generator prints `let big inf`, which the parser rejects (the circuit has no text form)", r.func.loc(), witness="let big 1.0e999\nregister q[2]")
